@@ -29,7 +29,9 @@ func zeroTimeOf(m *model.State, key string) (int64, int64, bool) {
 		return 0, 0, false
 	}
 	q, r := new(big.Int).QuoRem(st.Z, big.NewInt(1_000_000_000), new(big.Int))
-	if !q.IsInt64() {
+	// a block time must be representable (protobuf timestamps end with the year 9999): jumps to a zero time
+	// beyond that are not letters of any alphabet
+	if !q.IsInt64() || q.Int64() > maxProtoTimeS-2 {
 		return 0, 0, false
 	}
 	return q.Int64(), r.Int64(), true
